@@ -283,7 +283,7 @@ check("C12", "exploration",
 check("C05", "fault_enumeration",
       "honest: sharded shuffle (semi-honest and malicious contexts) for every row count 0..6 (12) x shard counts 1,2,3,5 x "
       "{round-robin, all rows on each single shard, 3 seeded assignments}; oracle: reconstructed multiset equals the input and "
-      "all share copies are consistent. tamper (malicious, 1 and 2 shards, 3 rows): channel census of every helper-to-helper "
+      "all share copies are consistent. order of disclosure (malicious, 1-3 shards, 2/3/6 rows): in the message order of the run every helper sends its share of the MAC keys only after the last table addressed to it; tamper (malicious; 1 and 2 shards with 3 rows, 3 shards with 2 rows on three placements, 2 shards with 1 row - shards that receive rows but end without output, or hold nothing): channel census of every helper-to-helper "
       "channel (run twice, must agree), then one run per (channel, chunk, fault) with faults = bit flips at bytes {0,1,mid,last} "
       "x masks {0x01,0x80} (every byte x 8 masks in thorough), zeroed chunk, and replaced 8-byte counts; every one of the three "
       "helpers is the corrupt sender in turn. distinct_nontrivial = faults whose interceptor fired and changed >= 1 byte "
